@@ -76,22 +76,33 @@ pub struct Item {
 }
 
 /// Candidate TTLs an item may carry: the largest finite one and whether
-/// "never expires" is among them.
+/// "never expires" is among them. `any`: the item was learned from an answer
+/// after a stretch in which the model did not know its state, so the TTL the
+/// server holds for it is not known at all (a later in-place mutation may
+/// restart it with any TTL).
 #[derive(Clone, Copy, Debug, PartialEq, Eq)]
 pub struct TtlSet {
     pub fin: u32,
     pub inf: bool,
+    pub any: bool,
+}
+
+impl TtlSet {
+    pub fn unknown() -> TtlSet {
+        TtlSet { fin: 0, inf: true, any: true }
+    }
 }
 
 impl From<u32> for TtlSet {
     fn from(t: u32) -> TtlSet {
         if t == 0 || t > MAX_REL_TTL {
-            TtlSet { fin: 0, inf: true }
+            TtlSet { fin: 0, inf: true, any: false }
         } else {
-            TtlSet { fin: t, inf: false }
+            TtlSet { fin: t, inf: false, any: false }
         }
     }
 }
+
 
 #[derive(Clone, Copy, Debug, PartialEq, Eq)]
 pub enum Presence {
@@ -486,7 +497,7 @@ impl Model {
         if let Some(it) = self.items.get_mut(key) {
             it.unknown = true;
         } else {
-            self.install(key, Vec::new(), None, None, Kind::Set, true, true, 0, INF, 0, false);
+            self.install(key, Vec::new(), None, None, Kind::Set, true, true, 0, INF, TtlSet::unknown(), false);
             self.items.get_mut(key).unwrap().unknown = true;
         }
     }
@@ -529,6 +540,10 @@ impl Model {
             }
             Kind::Unimplemented | Kind::Unknown => {}
         }
+        if std::env::var("VERIF_DEBUG_MODEL").is_ok() {
+            let it = self.items.get(key.as_slice()).map(|i| format!("lo={} hi={} ttl={:?} unknown={} cas={:?} hi_from_flush={}", i.lo, i.hi, i.ttl, i.unknown, i.cas, i.hi_from_flush));
+            eprintln!("[model] t={} {:?} key={} st={:#06x} presence-before={:?} -> {:?}", self.now, info.kind, wire::hex_short(&key, 8), st, p, it);
+        }
     }
 
     fn apply_get(&mut self, req: &Request, resp: Option<&Response>, p: Presence) {
@@ -566,6 +581,7 @@ impl Model {
                         it.unknown = false;
                         it.lo = self.now;
                         it.hi = INF;
+                        it.ttl = TtlSet::unknown();
                         it.client_cas_lifetime = true;
                         return;
                     }
@@ -870,7 +886,7 @@ impl Model {
                 t.fin = t.fin.max(x);
             }
         }
-        let restart = if t.inf { INF } else { self.now.saturating_add(t.fin as u64) };
+        let restart = if t.inf || t.any { INF } else { self.now.saturating_add(t.fin as u64) };
         let hi = it.hi.max(restart);
         (lo, hi, t)
     }
@@ -1127,7 +1143,7 @@ impl Model {
                 if st == status::OK {
                     if let Some(g) = resp.and_then(|r| r.counter()) {
                         let (lo, hi) = (self.now, INF);
-                        self.install(&key, g.to_string().into_bytes(), None, cas, kind, true, true, lo, hi, 0, false);
+                        self.install(&key, g.to_string().into_bytes(), None, cas, kind, true, true, lo, hi, TtlSet::unknown(), false);
                     } else {
                         self.mark_unknown(&key);
                     }
@@ -1228,7 +1244,9 @@ impl Model {
                 }
                 it.hi = it.hi.min(deadline);
                 it.lo = it.lo.min(now);
-                it.ttl = TtlSet { fin: it.ttl.fin.max(delay), inf: false };
+                // (an item whose TTL is not known keeps that mark: the flush only bounds its life
+                // as long as nothing restarts it)
+                it.ttl = TtlSet { fin: it.ttl.fin.max(delay), inf: false, any: it.ttl.any };
             }
         }
     }
